@@ -48,22 +48,20 @@ type c04Outcome struct {
 }
 
 type c04AskT struct {
-	idx      int
-	req      c04Req
-	timeout  time.Duration
+	idx       int
+	req       c04Req
+	timeout   time.Duration
 	fromActor int // -1 = outside goroutine
-	askAt    time.Duration
-	waiters  int
-	closeAt  time.Duration // <0 none
-	pipe     int           // 0 none, 1 before, 2 around, 3 after completion
-	nFwd     int
-	outcomes []c04Outcome
-	fut      vivid.Future[vivid.Message]
-	closed   bool
-	closedAt time.Duration
+	askAt     time.Duration
+	waiters   int
+	closeAt   time.Duration // <0 none
+	pipe      int           // 0 none, 1 before, 2 around, 3 after completion
+	nFwd      int
+	outcomes  []c04Outcome
+	fut       vivid.Future[vivid.Message]
+	closed    bool
+	closedAt  time.Duration
 }
-
-
 
 func c04Ask(r *R, deathFocus bool) { c04AskMode(r, deathFocus, false) }
 
